@@ -1,8 +1,10 @@
 package tcp
 
 import (
+	"errors"
 	"io"
 	"net"
+	"time"
 
 	gkm "github.com/go-kit/kit/metrics"
 )
@@ -24,32 +26,95 @@ func closeWrite(c net.Conn) {
 	c.Close()
 }
 
+// lingerTimeout is the time a side which has been sent everything the
+// other side had to say gets to finish after the other side has gone.
+const lingerTimeout = 5 * time.Second
+
+// gone tells whether err is the error of a copy whose destination does not
+// take data any more (and has not just been slow).
+func gone(err error) bool {
+	var de *dstError
+	var ne net.Error
+	return errors.As(err, &de) && !(errors.As(err, &ne) && ne.Timeout())
+}
+
 // tunnel copies data between in and out in both directions. src is the
 // reader for the in -> out direction (it may be a buffered reader on top
 // of in). When one side finishes sending, the end of its stream is passed
 // on to the other side and the opposite direction keeps running until it
 // finishes as well, e.g. a client that half-closes the connection after
-// sending its request still receives the reply. An error in either
-// direction tears down the tunnel.
+// sending its request still receives the reply.
+//
+// A side which has closed its connection has finished as well: what the
+// other side sends from then on cannot be written to it any more, but what
+// it had sent before it closed is still delivered, e.g. an upstream answers
+// and closes while the client is still sending and slow to read the answer.
+// Until the answer has arrived the data of the side which is still sending
+// is read and dropped: closing a connection with unread data, or receiving
+// data on a closed one, makes the kernel reset the connection and drop what
+// it still holds for the peer.
+//
+// Any other error tears down the tunnel.
 func tunnel(in, out net.Conn, src io.Reader, rx, tx gkm.Counter) error {
-	errc := make(chan error, 2)
-	go func() {
-		err := copyBuffer(in, out, rx)
-		if err == nil {
-			closeWrite(in)
-		}
-		errc <- err
-	}()
-	go func() {
-		err := copyBuffer(out, src, tx)
-		if err == nil {
-			closeWrite(out)
-		}
-		errc <- err
-	}()
-	err := <-errc
-	if err == nil {
-		err = <-errc
+	// direction 0 is out -> in, direction 1 is in -> out
+	srcs := [2]io.Reader{out, src}
+	dsts := [2]net.Conn{in, out}
+	cnts := [2]gkm.Counter{rx, tx}
+
+	type result struct {
+		dir int
+		err error
 	}
-	return err
+	resc := make(chan result, 2)
+	for i := range srcs {
+		go func(i int) {
+			err := copyBuffer(dsts[i], srcs[i], cnts[i])
+			if err == nil {
+				closeWrite(dsts[i])
+			}
+			resc <- result{i, err}
+		}(i)
+	}
+
+	// drain reads and drops what the source of direction i still sends
+	drain := func(i int) <-chan struct{} {
+		done := make(chan struct{})
+		go func() {
+			io.Copy(io.Discard, srcs[i])
+			close(done)
+		}()
+		return done
+	}
+	linger := func(drained <-chan struct{}) {
+		t := time.NewTimer(lingerTimeout)
+		defer t.Stop()
+		select {
+		case <-drained:
+		case <-t.C:
+		}
+	}
+
+	r1 := <-resc
+	switch {
+	case r1.err == nil:
+		// the source of r1 has finished: the other direction goes on
+		r2 := <-resc
+		if gone(r2.err) {
+			// ... and has closed. It has been sent all there was for it.
+			linger(drain(r2.dir))
+		}
+		return r2.err
+
+	case gone(r1.err):
+		// the destination of r1 has gone: the other direction delivers
+		// what it had sent
+		drained := drain(r1.dir)
+		if r2 := <-resc; r2.err == nil {
+			linger(drained)
+		}
+		return r1.err
+
+	default:
+		return r1.err
+	}
 }
